@@ -2,7 +2,7 @@
    literal readers and printers used by the generated cases_*.v files of the correspondence. *)
 From Coq Require Import QArith Qcanon ZArith.
 From mathcomp Require Import all_ssreflect all_algebra.
-From GT Require Import QcField QcOrder Tensor DetExec LogDom Obj Factor Measure Pdf Cond Moments ExpLog.
+From GT Require Import QcField QcOrder Tensor DetExec LogDom Obj Factor Measure Pdf Cond Moments ExpLog Sample.
 Set Implicit Arguments.
 Unset Strict Implicit.
 Unset Printing Implicit Defensive.
@@ -91,3 +91,10 @@ Definition obs_mass (u : measureQ) : seq Z := dL (uR u) (log_mass u).
 (* take(values, idx): negative indices wrap *)
 Definition selR (R : nat) (idx : seq int) (f : nat -> seq Z) : seq Z := flatten [seq f (nidx R i) | i <- idx].
 Definition idxR (R : nat) (idx : seq int) : seq nat := [seq nidx R i | i <- idx].
+
+(* ---- sampling (C19) ---- *)
+Definition lz (l : seq (seq (seq Qc))) : nat -> nat -> vec QF := fun d a => lv (nth [::] (nth [::] l d) a).
+Definition obs_sample (n R D : nat) (mu : nat -> vec QF) (L : nat -> mat QF) (z : nat -> nat -> vec QF) : seq Z :=
+  flatten [seq flatten [seq dV D (sample D mu L z d a) | a <- iota 0 R] | d <- iota 0 n].
+Definition obs_chol (R D : nat) (L S : nat -> mat QF) : seq Z :=
+  flatten [seq dumpF (if is_chol D (L a) (S a) then 1 else 0) | a <- iota 0 R].
